@@ -37,6 +37,11 @@ NOTES = {
     "C12_parent_skips_closing_contexts": "probe inside a teardown callback of the context being left",
     "C14_suffix_stripped_only_for_entry_points": "`module:attr/name` aliases with the type left out",
     "C19_none_first_union_member": "explicit optional lookup made right after the injected call",
+    "C06_falsy_resource_treated_as_missing": "published objects that are falsy (empty containers)",
+    "C06_wait_filter_shared_per_component": "a second request pending in the same component beside a wait",
+    "C07_service_start_shielded": "gates passed inside `start_service_task()` (slow `started()`); real-time watchdog: a hang is a report",
+    "C08_cancelled_task_exception_swallowed": "fixed scenarios: a task whose cleanup raises while unwinding from the teardown's cancellation",
+    "C09_all_task_handles_returns_live_set": "the caller empties the set it was given",
     "C19_async_inject_nowait_fast_path": "NOT reported: observable only with factories outside the documented domain (see below)",
     "C16_merge_worklist_mutates_aliased_nested": "YAML anchors/aliases (one mapping under two keys) in the generated files",
 }
